@@ -697,6 +697,8 @@ class Exec:
             return st.env[n]
         if n in self.c.consts:
             return self.lift_const(self.c.consts[n])
+        if not self.spec and n in getattr(self, "module_consts", {}):
+            return self.lift_const(self.module_consts[n])
         if self.spec and n == "result":
             return self.result
         if self.spec and n in ("True", "False"):
@@ -1506,6 +1508,11 @@ class Exec:
             st.env[n] = v
             return
         if isinstance(tg, (ast.Tuple, ast.List)):
+            if isinstance(v.ty, T.Opt) and isinstance(v.ty.t, T.Tuple):
+                if not self.spec:
+                    self.oblige(st, "safety", f"none-unpack@{getattr(node, 'lineno', 0)}", z3.Not(v.terms[0]), node,
+                                "unpacking None raises TypeError")
+                v = T.opt_inner(v)
             if not isinstance(v.ty, T.Tuple) or len(v.ty.ts) != len(tg.elts):
                 raise Unsupported("tuple unpacking mismatch", node)
             for t, item in zip(tg.elts, T.tuple_items(v)):
